@@ -6,7 +6,7 @@ SPEC = {
         "AM.Dedup.inv_flush", "AM.Dedup.inv_gc", "AM.Dedup.inv_everywhere",
         "AM.Dedup.notify_only_if_changed_or_repeat", "AM.Dedup.gone_implies_repeat_elapsed",
         "AM.Dedup.early_repeat_when_retention_short",
-        "AM.Dedup.repeat_on_time", "AM.Dedup.no_repeat_before", "AM.Dedup.repeat_when_entry_gone",
+        "AM.Dedup.repeat_on_time", "AM.Dedup.no_repeat_before", "AM.Dedup.repeat_when_entry_gone", "AM.Dedup.repeat_window",
         "AM.Dedup.no_resolved_only_first", "AM.Dedup.logged_with_firing_was_sent",
     ],
     "engines": [
